@@ -10,6 +10,7 @@
   fork       number of children to fork (each a probe worker ignoring everything in `kid_ignore`)
   kid_ignore [signal numbers]
   dump       true: write argv, cwd, open descriptors (with socket inodes) to <pid>.dump.json
+  accept     true: accept (and drop) every connection on the listening descriptor given as `--fd N` after argv[1]
   out        {"stdout": [[size, pause_ms], ...], "stderr": [...], "tag": "x", "close_stdout_after": n}
              scripted output: records "[pid|channel|seq|len]payload\n"
 
@@ -96,8 +97,24 @@ def main():
             if out.get(ch):
                 writers.append([ch, fd, list(out[ch]), 0, time.monotonic()])
     written = {'stdout': 0, 'stderr': 0}
+    lsock = None
+    if spec.get('accept') and '--fd' in sys.argv:
+        import socket
+        try:
+            lsock = socket.socket(fileno=os.dup(int(sys.argv[sys.argv.index('--fd') + 1])))
+            lsock.setblocking(False)
+        except (OSError, ValueError, IndexError):
+            lsock = None
     while True:
         now = time.monotonic()
+        if lsock is not None:
+            try:
+                conn, _ = lsock.accept()
+                conn.close()
+                with open(os.path.join(log, '%d.accepted' % pid), 'a') as f:
+                    f.write('%.4f\n' % now)
+            except OSError:
+                pass
         for p in list(pending):
             if now >= p[0]:
                 if p[1] == 'die':
